@@ -99,7 +99,7 @@ def check_pair(ck, c1, c2, scale, exact, reassigned_from=None):
         if not same(got, exp_pt):
             return bad('point', exp_pt, got)
         if seg.point(0) != z[0] or seg.point(1) != z[-1]:
-            if exact or abs(seg.point(1) - z[-1]) > 1e-12 * mag or seg.point(0) != z[0]:
+            if exact or not (abs(seg.point(1) - z[-1]) <= 1e-12 * mag) or seg.point(0) != z[0]:
                 return bad('point(0/1)', (z[0], z[-1]), (seg.point(0), seg.point(1)))
         poly = seg.poly()
         exp_co = [cx(u, v, 1) for u, v in zip(c1['coeffs'], c2['coeffs'])]
@@ -133,7 +133,7 @@ def check_pair(ck, c1, c2, scale, exact, reassigned_from=None):
                 return bad('poly2bez(type)', type(seg).__name__, type(back).__name__)
             bco = list(back.poly().coeffs)
             pco = list(poly.coeffs)
-            if len(bco) != len(pco) or any((g != e) if exact else abs(g - e) > 1e-11 * mag for g, e in zip(bco, pco)):
+            if len(bco) != len(pco) or any((g != e) if exact else not (abs(g - e) <= 1e-11 * mag) for g, e in zip(bco, pco)):
                 return bad('poly2bez(poly1d)', pco, bco)
             if exact and not degenerate and back != seg:
                 return bad('poly2bez(poly1d) != segment', z, list(back.bpoints()))
@@ -143,7 +143,7 @@ def check_pair(ck, c1, c2, scale, exact, reassigned_from=None):
             if list(sppath.bez2poly(seg)) != co2 or list(bz.bezier2polynomial(z)) != co2:
                 return bad('bez2poly', co2, list(sppath.bez2poly(seg)))
         else:
-            if any(abs(u - v) > 1e-11 * mag for u, v in zip(bp, z)):
+            if any(not (abs(u - v) <= 1e-11 * mag) for u, v in zip(bp, z)):
                 return bad('poly2bez', z, list(bp))
     except Exception as e:      # noqa
         return bad('raises-' + type(e).__name__, 'a value', repr(e))
